@@ -50,7 +50,7 @@ def _load_corpus():
     return out
 
 
-def _classify(ctx, what, env, runs, lockstep, dist, distinct, samples):
+def _classify(ctx, what, env, runs, lockstep, dist, distinct, samples, base):
     tag = what.split(":")[1] if what.startswith("prog:") else what
     for r in runs:
         dist["verdicts"][r["verdict"]] = dist["verdicts"].get(r["verdict"], 0) + 1
@@ -82,7 +82,7 @@ def _classify(ctx, what, env, runs, lockstep, dist, distinct, samples):
                 ctx.broke("correspondence", "E-CONC lock-step c08 what=%s seed=%d" % (what, r["seed"]), "%s\n%s" % (r["replay"], text))
         if len(samples) < 1 and "slept" in feats and "cas_lost_to_seal" in feats:
             samples.append(r["lines"][:80])
-        if len(ctx.failing) + len(ctx.broken) > 8:
+        if len(ctx.failing) > 8 or len(ctx.broken) - base > 8:
             return False
     return True
 
@@ -119,11 +119,12 @@ def run(ctx):
              ("promise", seed0 + n, n // 2, {"VRT_STRATEGY": "pct"}), ("latch", seed0 + n, n // 2, {"VRT_STRATEGY": "pct"}),
              ("promise", seed0 + 2 * n, n // 2, {"VRT_CAS_WEAK_FAIL": "2", "VRT_STICK": "0"}),
              ("latch", seed0 + 2 * n, n // 3, {"VRT_STICK": "0"})]
+    base = len(ctx.broken)
     for i, (what, s0, cnt, env) in enumerate(plan):
         runs = ctx.econc(exe, drv, [what], s0, cnt, env=env)
         key = ("corpus:" if i < ncorpus else "") + what.split(":")[0 if not what.startswith("prog:") else 1] + ("/" + ",".join("%s=%s" % kv for kv in sorted(env.items())) if env else "")
         dist["modes"][key] = dist["modes"].get(key, 0) + len(runs)
-        if not _classify(ctx, what, env, runs, True, dist, distinct, samples):
+        if not _classify(ctx, what, env, runs, True, dist, distinct, samples, base):
             break
     # documented witness of the NoWrap hypothesis (not part of pass/fail): real code from the futex word reached after
     # 2^31 - k timed-out wait_for calls
